@@ -357,7 +357,11 @@ class World:
         for _ in range(r.choice([1, 1, 2, 2, 3, 4])):
             z = r.random()
             if z < 0.3 and leafish:
-                h = self.pick(leafish) if r.random() < 0.95 else 'nohandle'
+                multi = [d for d in leafish if len(self.mdib.context_states.descriptor_handle.get(d, [])) >= 2]
+                if multi and r.random() < 0.3:
+                    h = r.choice(multi)      # a context descriptor with several context states: all of them follow the descriptor
+                else:
+                    h = self.pick(leafish) if r.random() < 0.95 else 'nohandle'
                 script['calls'].append(['getDescr', h])
                 if h in alld and h not in intx:
                     intx.append(h)
@@ -485,6 +489,7 @@ class World:
         """The application keeps what it was handed and writes into it after the transaction ended; it also
         writes into the objects of the TransactionResult it observed. None of this may reach the MDIB."""
         n = 7000 + len(self.model_lines)
+        snap0 = lb.snapshot(self.mdib)
         published = []
         if res is not None:
             for lst in (res.metric_updates, res.alert_updates, res.comp_updates, res.ctxt_updates, res.op_updates, res.rt_updates):
@@ -510,6 +515,15 @@ class World:
         if self.scribble_results:
             for st in published:
                 deep_scribble(st)
+            if res is not None:
+                for d in list(res.descr_updated) + list(res.descr_created) + list(res.descr_deleted):
+                    self.mutate_descr(d, n + 1)
+                    deep_scribble(d)
+        snap1 = lb.snapshot(self.mdib)
+        if snap1 != snap0:
+            info.setdefault('isolation_failures', []).append(
+                ('late-write-changed-mdib', 'writing into handed-out / result objects after the transaction changed the MDIB: '
+                 + '; '.join(lb.diff_snapshots(snap0, snap1)[:3])))
 
     @staticmethod
     def _n_items(mgr):
